@@ -263,7 +263,7 @@ Let vs := views strtab rows.
 Let drow : row := (mkSym 0 0 0 0 0 0 0 0 0, []).
 
 Lemma es_pos : sym_size is64 <= es.
-Proof. unfold symtab_ok in Hok. apply andb_true_iff in Hok. destruct Hok as [H _]. apply Z.leb_le in H. exact H. Qed.
+Proof using Hok. unfold symtab_ok in Hok. apply andb_true_iff in Hok. destruct Hok as [H _]. apply Z.leb_le in H. exact H. Qed.
 
 Lemma row_ok r : In r rows -> sym_ok is64 (fst r) = true /\ zlen (snd r) = es - sym_size is64.
 Proof.
@@ -288,9 +288,9 @@ Proof.
 Qed.
 
 Theorem num_symbols_exact : num_symbols c = zlen rows.
-Proof.
+Proof using Hok Hsize.
   unfold num_symbols, c. cbn [c_sec s_size s_entsize].
-  pose proof es_pos as Hp. assert (0 < es) by (destruct is64; cbn in Hp; lia).
+  pose proof es_pos as Hp. clear - Hp Hsize. assert (0 < es) by (destruct is64; cbn in Hp; lia).
   symmetry. apply (Z.div_unique size es (zlen rows) (size - es * zlen rows)); lia.
 Qed.
 
@@ -446,11 +446,12 @@ Proof.
 Qed.
 
 Theorem syminfo_num_exact : syminfo_num_symbols s = zlen rows - 1.
-Proof.
+Proof using Hiok Hlen Hisize.
   unfold syminfo_num_symbols, s. cbn [s_size s_entsize]. rewrite <- Hlen. f_equal.
   assert (0 < ies).
-  { unfold syminfo_ok in Hiok. apply andb_true_iff in Hiok. destruct Hiok as [H _]. apply Z.leb_le in H. lia. }
-  symmetry. apply (Z.div_unique isize ies (zlen irows) (isize - ies * zlen irows)); lia.
+  { pose proof Hiok as W. unfold syminfo_ok in W. apply andb_true_iff in W. destruct W as [H _]. apply Z.leb_le in H.
+    clear - H. lia. }
+  clear - H Hisize. symmetry. apply (Z.div_unique isize ies (zlen irows) (isize - ies * zlen irows)); lia.
 Qed.
 
 Lemma combine_nth_views : forall (names : list (list Z)) (l : list irow) k,
